@@ -9,6 +9,9 @@ Mutants no rule reports are then put through the repository's own test suite; th
 written out per function.  A function with many such survivors is a place the rules do not look at — the list is triaged by
 hand (many survivors are behaviour-preserving or outside every property), it is never turned into a verdict.
 
+  tools/sweep.py --benign ...   the reverse experiment: rewrites that preserve behaviour by construction (comparison / addition
+                                operands swapped, `x += k` written out, len()==0 <-> is_empty(), one-line if/else inverted);
+                                every rule must stay silent, an alarm on one that also keeps the suite result is a false alarm
   tools/sweep.py [--jobs N] [--only SUBSTR] [--no-tests] [--out FILE] [--resume FILE] [--ops op1,op2]
 
 Scratch copies live under /tmp/sw and are removed at the end.
@@ -106,10 +109,64 @@ def mutants_of(path, rel):
     return res
 
 
-def all_mutants(only=None):
+FLIP = {"<": ">", "<=": ">=", ">": "<", ">=": "<=", "==": "==", "!=": "!="}
+SIMPLE = r"[\w.]+(?:\(\))?(?:\.[\w]+(?:\(\))?)*"
+
+
+def benign_mutants_of(path, rel):
+    """behaviour-preserving by construction: operands of a comparison swapped (operator mirrored), operands of `+` swapped,
+    `x += k` written out, `len() == 0` <-> `is_empty()`, one-line `if c { a } else { b }` inverted.  An alarm on one of these
+    is a false alarm."""
+    res = []
+    fn = "?"
+    for i, l in non_test_lines(path):
+        s = l.strip()
+        m = re.search(r"\bfn\s+(\w+)", l)
+        if m and not s.startswith("//"):
+            fn = m.group(1)
+        code = l.split("//")[0]
+        if not s or s.startswith(("//", "#[", "use ", "pub use", "mod ", "pub mod")) or re.search(r"\bfn\s+\w+", code) or \
+                s.startswith(("impl", "pub struct", "struct", "pub enum", "enum", "type ", "pub type", "where ", "pub trait", "trait ")) or \
+                "debug_assert" in code or "assert!" in code:
+            continue
+
+        def add(op, start, end, new):
+            res.append({"file": rel, "line": i, "fn": fn, "op": op, "old": l, "new": l[:start] + new + l[end:]})
+        for m in re.finditer(r"(%s) (<=|>=|==|!=|<|>) (%s)" % (SIMPLE, SIMPLE), code):
+            a, op, b = m.group(1), m.group(2), m.group(3)
+            before, after = code[:m.start()], code[m.end():]
+            if a == b or not re.search(r"(?:^\s*|\(|\bif |\bwhile |&& |\|\| |= |return |!\()$", before) or \
+                    not re.match(r"(?: \{| &&| \|\||\)|;|,|\s*$)", after):
+                continue
+            add("b-cmp-swap", m.start(), m.end(), "%s %s %s" % (b, FLIP[op], a))
+        for m in re.finditer(r"(%s) \+ (%s)" % (SIMPLE, SIMPLE), code):
+            a, b = m.group(1), m.group(2)
+            before, after = code[:m.start()], code[m.end():]
+            if not re.search(r"(?:\(|= |, |\[|return |\{ |\.\. |< |> |<= |>= |== |!= )$", before) or \
+                    not re.match(r"(?:\)|;|,|\]| \}| <| >| <=| >=| ==| !=| \{| \.\.|\s*$)", after):
+                continue
+            add("b-add-swap", m.start(), m.end(), "%s + %s" % (b, a))
+        m = re.match(r"^(\s*)([\w.*\[\]]+) (\+|-)= (.+);\s*$", code)
+        if m:
+            lhs = m.group(2)
+            val = lhs[1:] if lhs.startswith("*") else lhs
+            add("b-opassign", 0, len(code.rstrip()), "%s%s = %s %s (%s);" % (m.group(1), lhs, ("*" + val) if lhs.startswith("*") else val, m.group(3), m.group(4)))
+        for m in re.finditer(r"(%s)\.len\(\) == 0" % SIMPLE, code):
+            add("b-isempty", m.start(), m.end(), "%s.is_empty()" % m.group(1))
+        for m in re.finditer(r"(%s)\.len\(\) > 0" % SIMPLE, code):
+            add("b-isempty", m.start(), m.end(), "!%s.is_empty()" % m.group(1))
+        for m in re.finditer(r"(?<![!\w.])(%s)\.is_empty\(\)" % SIMPLE, code):
+            add("b-len0", m.start(), m.end(), "(%s.len() == 0)" % m.group(1))
+        m = re.search(r"\bif (?!let\b)([^{}]+?) \{ ([^{};]+) \} else \{ ([^{};]+) \}", code)
+        if m:
+            add("b-if-flip", m.start(), m.end(), "if !(%s) { %s } else { %s }" % (m.group(1), m.group(3), m.group(2)))
+    return res
+
+
+def all_mutants(only=None, benign=False):
     res = []
     wasm = os.path.join(REPO, "rust", "wasm", "src", "lib.rs")
-    if os.path.exists(wasm) and (not only or only in "wasm/src/lib.rs"):
+    if os.path.exists(wasm) and (not only or only in "wasm/src/lib.rs") and not benign:
         res.extend(mutants_of(wasm, "wasm/src/lib.rs"))
         # the bridge has almost no operators: also swap / drop call arguments and `cfg(lang = ..)` values
         for i, l in non_test_lines(wasm):
@@ -130,7 +187,7 @@ def all_mutants(only=None):
             rel = os.path.relpath(p, os.path.join(REPO, "rust"))
             if only and only not in rel:
                 continue
-            res.extend(mutants_of(p, rel))
+            res.extend(benign_mutants_of(p, rel) if benign else mutants_of(p, rel))
     return res
 
 
@@ -199,7 +256,7 @@ def worker(lane, q, results, lock, run_tests):
             m2["compiles"] = r["compiles"]
             m2["fired"] = r["fired"]
             m2["errors"] = r["errors"] if r["compiles"] else {}
-            if r["compiles"] and not r["fired"] and run_tests:
+            if r["compiles"] and run_tests and (bool(r["fired"]) if m["op"].startswith("b-") else not r["fired"]):
                 m2["suite"] = suite(root, lane)
             with lock:
                 results.append(m2)
@@ -223,7 +280,7 @@ def main(argv):
         if a == "--out":
             outp = argv[i + 1]
     run_tests = "--no-tests" not in argv
-    ms = all_mutants(only)
+    ms = all_mutants(only, benign="--benign" in argv)
     for i, a in enumerate(argv):
         if a == "--ops":
             ops = set(argv[i + 1].split(","))
